@@ -23,6 +23,11 @@
 (*  kind "tnp"       TangentialNormalProjection(normals) in 2D / 3D with   *)
 (*                   1..3 non-unit normals; all three projection matrices  *)
 (*                   with num = None and num = 2                           *)
+(*  kinds "tilt_*": the same calls (one normal) for the graded family of    *)
+(*                   nearly axis-aligned directions m e_o + sg Big e_ax:   *)
+(*                   every axis, both signs, both other components, tilts  *)
+(*                   m / Big from 1e-1 down to 1e-7; integers for the code,*)
+(*                   big vectors [s, cv, facs] for the judge               *)
 (* ref = 0: the default reference (third axis) is used; 1..3: e_ref.       *)
 (* Point sets: off + i u + j v for coefficient patterns (i, j) - triangle, *)
 (* quadrilateral, three collinear points first, nearly parallel vectors    *)
@@ -42,7 +47,9 @@ CONSTANTS Bases,      \* set of Pythagorean quadruples <<a, b, c>> (a^2 + b^2 + 
           Offsets,    \* translations of the point sets
           PtRefs,     \* reference axes used with point sets
           LineRefs,   \* reference axes used with project_line_matrix(tangent)
-          AllScales   \* tnp: both scalings for every number of normals (otherwise only for a single normal)
+          AllScales,  \* tnp: both scalings for every number of normals (otherwise only for a single normal)
+          Tilts,      \* nearly axis-aligned directions: set of [m, facs]: tilt = m / product of facs
+          TiltSigns   \* signs of the small component
 
 Perms3 == {s \in [1..3 -> 1..3] : \A i, j \in 1..3 : i # j => s[i] # s[j]}
 Signs3 == [1..3 -> {-1, 1}]
@@ -106,11 +113,44 @@ RecordsOf(k, c) ==
          {[kind |-> "tnp", dim |-> 2, normals |-> Normals2(x[1], x[2], x[3])] :
             x \in {y \in InChunk(Dirs2, c) \X (1..3) \X {1, 2} : (y[2] > 1 /\ ~AllScales) => y[3] = 2}}
 
+\* ---- graded family of nearly axis-aligned directions  m e_o + sg Big e_ax  (tilt |m| / Big from the axis +-e_ax)
+\* for every axis, both signs, each of the two other components and every tilt; as integers and as big vectors
+TiltDirs3 == UNION {{[m |-> t.m * sm, facs |-> t.facs, ax |-> ax, o |-> o, sg |-> sg] :
+                       t \in Tilts, sm \in TiltSigns, o \in (1..3) \ {ax}, sg \in {-1, 1}} : ax \in 1..3}
+TiltDirs2 == {[m |-> t.m * sm, facs |-> t.facs, ax |-> ax, o |-> 3 - ax, sg |-> sg] :
+                t \in Tilts, sm \in TiltSigns, ax \in 1..2, sg \in {-1, 1}}
+TiltChunk(d) == (d.ax + 3 * d.o + d.sg + d.m + Len(d.facs) + 16) % NChunks
+TiltBig(d, dim) == [s |-> [k \in 1..dim |-> IF k = d.o THEN d.m ELSE 0], cv |-> VScale(d.sg, Axis(d.ax, dim)), facs |-> d.facs]
+\* in-plane vectors of the plane orthogonal to the tilted direction (both of length ~ Big, so that the point sets are
+\* not needles): U = Big e_p (p the third axis), V = Big e_o - sg m e_ax;  the point / difference with coefficients (ci, cj)
+TiltVBig(d, ci, cj) == [s |-> VScale(-(cj * d.sg * d.m), Axis(d.ax, 3)),
+                        cv |-> VAdd(VScale(ci, Axis(6 - d.ax - d.o, 3)), VScale(cj, Axis(d.o, 3))), facs |-> d.facs]
+TiltPts(d, off, cs) == [i \in 1..Len(cs) |-> VAdd(off, BigInts(TiltVBig(d, cs[i][1], cs[i][2])))]
+TiltDiffs(d, cs) == [i \in 1..(Len(cs) - 1) |-> TiltVBig(d, cs[i + 1][1] - cs[1][1], cs[i + 1][2] - cs[1][2])]
+TiltPatterns == {Tri, Quad, CollinearStart}
+TiltRecordsOf(k, c) ==
+  CASE k = "tilt_tnp3" ->
+         {[kind |-> "tilt_tnp", dim |-> 3, nb |-> TiltBig(d, 3), normals |-> <<BigInts(TiltBig(d, 3))>>] :
+            d \in {e \in TiltDirs3 : TiltChunk(e) = c}}
+    [] k = "tilt_tnp2" ->
+         {[kind |-> "tilt_tnp", dim |-> 2, nb |-> TiltBig(d, 2), normals |-> <<BigInts(TiltBig(d, 2))>>] :
+            d \in {e \in TiltDirs2 : TiltChunk(e) = c}}
+    [] k = "tilt_plane" ->
+         {[kind |-> k, nb |-> TiltBig(x[1], 3), n |-> BigInts(TiltBig(x[1], 3)), ref |-> x[2],
+           pts |-> TiltPts(x[1], <<0, 0, 0>>, Tri)] :
+            x \in {e \in TiltDirs3 : TiltChunk(e) = c} \X PtRefs}
+    [] k \in {"tilt_normal", "tilt_plane_pts"} ->
+         UNION {{[kind |-> k, nb |-> TiltBig(x[1], 3), n |-> BigInts(TiltBig(x[1], 3)), ref |-> 0,
+                  pts |-> TiltPts(x[1], x[3], Rotate(x[2], sh)), dv |-> TiltDiffs(x[1], Rotate(x[2], sh))] : sh \in Shifts(x[2])} :
+                  x \in {e \in TiltDirs3 : TiltChunk(e) = c} \X TiltPatterns \X Offsets}
+
 VARIABLES st, kind, batch
 vars == <<st, kind, batch>>
 Init == st = 0 /\ kind \in Kinds /\ batch = {}
 Pick == /\ st = 0 /\ st' = 1 /\ kind' = kind
-        /\ \E c \in 0..(NChunks - 1) : batch' = RecordsOf(kind, c)
+        /\ \E c \in 0..(NChunks - 1) :
+             batch' = IF kind \in {"tilt_tnp3", "tilt_tnp2", "tilt_plane", "tilt_normal", "tilt_plane_pts"}
+                      THEN TiltRecordsOf(kind, c) ELSE RecordsOf(kind, c)
 Next == Pick
 Spec == Init /\ [][Next]_vars
 
@@ -126,6 +166,18 @@ LawsOf(rec) ==
         /\ \A i \in 1..(Len(rec.pts) - 1) : Cross(rec.n, Diffs(rec.pts)[i]) = <<0, 0, 0>>
         /\ \A i \in 1..(Len(rec.pts) - 1) : MaxAbs(Diffs(rec.pts)[i]) <= 500
   /\ (rec.kind \in {"plane", "line"}) => rec.n # <<0, 0, 0>> /\ MaxAbs(rec.n) <= 500
+  \* tilted family: the integer points lie in the plane orthogonal to n (big vector form: n . (s + c Big e_ax) = 0 is
+  \* m c Big - sg Big c sg m = 0, checked without the big products), the big vectors are the integer vectors
+  /\ (rec.kind \in {"tilt_normal", "tilt_plane_pts"}) =>
+        /\ \A i \in 1..Len(rec.dv) : BigInts(rec.dv[i]) = Diffs(rec.pts)[i]
+        /\ \A i \in 1..Len(rec.dv) : LET w == rec.dv[i] IN
+              /\ Dot(rec.nb.cv, w.cv) = 0 /\ Dot(rec.nb.s, w.s) = 0                \* the Big^2 and the small terms vanish
+              /\ Dot(rec.nb.s, w.cv) + Dot(rec.nb.cv, w.s) = 0                      \* the two Big terms cancel
+              /\ MaxAbs(w.s) <= 30 /\ MaxAbs(w.cv) <= 5
+        /\ \E i, j \in 1..Len(rec.dv) : Cross(rec.dv[i].cv, rec.dv[j].cv) # <<0, 0, 0>>   \* not collinear
+  /\ (rec.kind \in {"tilt_tnp", "tilt_plane", "tilt_normal", "tilt_plane_pts"}) =>
+        /\ MaxAbs(rec.nb.s) <= 5 /\ MaxAbs(rec.nb.cv) = 1 /\ \A i \in 1..Len(rec.nb.facs) : rec.nb.facs[i] \in 2..1000
+        /\ rec.kind # "tilt_tnp" => BigInts(rec.nb) = rec.n
   /\ rec.kind = "tnp" => \A i \in 1..Len(rec.normals) : Norm2(rec.normals[i]) > 0 /\ MaxAbs(rec.normals[i]) <= 500
 Laws == st = 1 => \A rec \in batch : LawsOf(rec)
 \* the exact family is not empty: the Rodrigues rotation of a rational unit vector onto e3 is the rational RefRot
